@@ -198,6 +198,18 @@ def run_load(ctx, exe, label, nthreads, nclients, rounds, sighup):
     if c:
         problems.append("after the load: " + c)
     rc, rep = d.stop(timeout=30)
+    # the log is shared state too: every record is one line '<name>: <Priority>: text' (no fused records, no empty lines)
+    import re
+    pat = re.compile(r"^[^:\n]*munged[^:\n]*: (Emergency|Alert|Critical|Error|Warning|Notice|Info|Debug): [^\n]*$")
+    bad_lines = []
+    for ln in (d.stderr or "").split("\n")[:-1]:
+        if not pat.match(ln) or len(re.findall(r"munged[^:\s]*: (?:Emergency|Alert|Critical|Error|Warning|Notice|Info|Debug): ", ln)) != 1:
+            if "Sanitizer" in ln or ln.startswith("==") or ln.startswith("    #") or ln.startswith("SUMMARY"):
+                continue
+            bad_lines.append(ln[:200])
+    if bad_lines:
+        problems.append("the daemon's log has %d malformed line(s) under concurrent load (records of different requests fused or split): %r"
+                        % (len(bad_lines), bad_lines[:2]))
     return problems, rep
 
 
